@@ -171,7 +171,8 @@ def run(chk) -> None:
         "python": ["assign", "callArg", "returnExpr", "defaultParam", "arrayElem", "mapValue", "binop", "compare",
                    "index", "twoOnLine", "classAttr", "kwArg", "tupleElem", "rangeArg", "enumerateArg", "strRepeat",
                    "upperConst", "annUpperConst", "nestedFunc", "fstringInterp", "lambdaBody", "ternary", "comprehension",
-                   "sliceBound", "unaryMinus", "upperCallArg", "upperFuncBody", "classUpperConst", "localUpperConst"],
+                   "sliceBound", "unaryMinus", "upperCallArg", "upperFuncBody", "classUpperConst", "localUpperConst",
+                   "strKeyMul"],
         "typescript": ["assign", "callArg", "returnExpr", "defaultParam", "arrayElem", "mapValue", "binop", "compare",
                        "index", "twoOnLine", "classAttr", "upperConst", "enumMember", "lowerConst", "templateInterp",
                        "arrowBody", "ternary", "upperCallArg", "upperFuncBody"],
